@@ -10,7 +10,7 @@ CFG = {
     "signatures": {},
     "rule": "per reduced grammar: SLR, LALR and canonical LR construction under recover+watchdog, verdict and table compared (up to state renumbering) with the modelled SLR / LALR (merge by core) / LR(1) constructions; every table built is "
             "dumped and checked with the extracted certificates table_ok/term_ok; every token string up to the length bound "
-            "(6 for <=2 terminals, 5 for 3, 4 for 4; members and non-members) is parsed with Parse and ParseAndBuildAST and "
+            "(6 for <=2 terminals, 5 for 3, 4 for 4; members and non-members) is parsed through every entry point and callback configuration (Parse(nil,nil), Parse(tokenF,nil), Parse(nil,prodF), Parse(tokenF,prodF), ParseAndBuildAST, ParseAndEvaluate: verdicts, productions and tokens must agree) and "
             "compared with the extracted driver run on the same table, with the extracted membership oracle, with rm_check "
             "and the AST yield; plus up to 10 longer sentences per grammar with leftmost-derivation witnesses (lm_check) and one-token corruptions of them. classic: textbook grammars on the SLR/LALR/LR(1)/non-LR boundaries incl. the D11a/D11b witnesses; "
             "exhaustive: all reduced grammars over {S},{S,A} x {a,b} with <=2 productions and a seeded 1/40 sample with 3; "
